@@ -137,8 +137,15 @@ Qed.
 
 (* ---------- pointwise facts about the weights, lifted to sums ---------- *)
 Ltac pc_cases p :=
-  destruct p as [m|m| |k|k|k|k|k| |k|k|k| | |k|k|k|k|k|k a|k a|k|k| | |a|a|a| | | | | | | | | ];
-  try (destruct m); try (destruct k); try (destruct a).
+  destruct p;
+  repeat match goal with
+         | m : mode |- _ => destruct m
+         | k : lsk |- _ => destruct k
+         | k : usk |- _ => destruct k
+         | k : fxk |- _ => destruct k
+         | k : uxk |- _ => destruct k
+         | a : bool |- _ => destruct a
+         end.
 
 Lemma rest_facts : forall l,
   0 <= Srl l /\ 0 <= Srd l /\ 0 <= Swl l /\ 0 <= Sfw l /\ 0 <= Swr l /\ 0 <= Sap l /\ 0 <= Sup l /\
@@ -149,4 +156,425 @@ Proof.
   induction l as [|[p scr] l IH]; [simpl; lia|].
   rewrite !sumf_cons.
   pc_cases p; cbn [wt wmode rl rd wl fw wr ap up xc rc cr us_wl us_fw ux_r b2z]; lia.
+Qed.
+
+Lemma fetch_legal : forall m scr o r,
+  fetch m scr = Some (o, r) -> legal m o = true /\ (length r < length scr)%nat.
+Proof.
+  induction scr as [|a scr IH]; simpl; intros o r H; [discriminate|].
+  destruct (legal m a) eqn:E.
+  - inversion H; subst. split; [assumption | lia].
+  - destruct (IH _ _ H). split; [assumption | lia].
+Qed.
+
+Lemma b2z_range : forall b, 0 <= b2z b <= 1.
+Proof. destruct b; simpl; lia. Qed.
+
+(* ---------- one step of one process preserves the invariant ---------- *)
+Ltac unfold_sums :=
+  unfold Srl, Srd, Swl, Sfw, Swr, Sap, Sup, Sxc, Src, Scr in *.
+
+Ltac split_ifs E :=
+  repeat match type of E with
+         | context [if ?c then _ else _] => destruct c eqn:?
+         end.
+
+Ltac finish_step E :=
+  inversion E; subst; clear E;
+  constructor;
+  cbn [sh ths readers writing appending updating readLevel writeLevel
+       set_readers set_writing set_appending set_updating set_readLevel set_writeLevel];
+  unfold_sums; rewrite ?sumf_app, ?sumf_cons;
+  cbn [wt wmode rl rd wl fw wr ap up xc rc cr us_wl us_fw ux_r b2z fst entry is_append] in *;
+  lia.
+
+Lemma pstep_inv : forall s l1 l2 p scr s' p' scr' evs,
+  Inv (mkState s (l1 ++ (p, scr) :: l2)) ->
+  pstep s p scr = (s', p', scr', evs) ->
+  Inv (mkState s' (l1 ++ (p', scr') :: l2)).
+Proof.
+  intros s l1 l2 p scr s' p' scr' evs [H1 H2 H3 H4 H5 H6 H7 H8 H9] E.
+  cbn [sh ths] in *.
+  pose proof (rest_facts l1) as F1. pose proof (rest_facts l2) as F2.
+  unfold_sums. rewrite !sumf_app, !sumf_cons in *.
+  destruct s as [R Wr Ap Up RL WL].
+  cbn [readers writing appending updating readLevel writeLevel] in *.
+  pose proof (b2z_range Wr) as BW. pose proof (b2z_range Ap) as BA. pose proof (b2z_range Up) as BU.
+  destruct p as [m|m| |k|k|k|k|k| |k|k|k| | |k|k|k|k|k|k a|k a|k|k| | |a|a|a| | | | | | | | | ].
+  1: { (* Ready *)
+    cbn [pstep] in E. destruct (fetch m scr) as [[o r]|] eqn:F.
+    + apply fetch_legal in F. destruct F as [F _].
+      destruct m, o; try discriminate F; finish_step E.
+    + finish_step E. }
+  1: { (* Done *) finish_step E. }
+  1: { (* Crashed *) finish_step E. }
+  all: try destruct k; try destruct a;
+    cbn [pstep set_readers set_writing set_appending set_updating set_readLevel set_writeLevel
+         readers writing appending updating readLevel writeLevel ls_op fx_op] in E;
+    cbn [wt wmode rl rd wl fw wr ap up xc rc cr us_wl us_fw ux_r b2z fst] in *;
+    split_ifs E; try finish_step E.
+Qed.
+
+(* ---------- lifting to steps, schedules, round-robin completion ---------- *)
+Lemma step_inv : forall st t st' evs b, Inv st -> step st t = (st', evs, b) -> Inv st'.
+Proof.
+  intros [s l] t st' evs b HI E. unfold step in E. cbn [sh ths] in E.
+  destruct (nthN t l) as [[p scr]|] eqn:N; [|inversion E; subst; assumption].
+  destruct (terminal p); [inversion E; subst; assumption|].
+  destruct (pstep s p scr) as [[[s1 p1] scr1] evs1] eqn:P.
+  inversion E; subst; clear E.
+  destruct (nthN_split _ _ _ _ N) as (l1 & l2 & E1 & E2 & _).
+  rewrite E2. subst l. eapply pstep_inv; eassumption.
+Qed.
+
+Lemma exec_inv : forall sched st st' evs n, Inv st -> exec st sched = (st', evs, n) -> Inv st'.
+Proof.
+  induction sched as [|t r IH]; intros st st' evs n HI E; simpl in E.
+  - inversion E; subst; assumption.
+  - destruct (step st t) as [[st1 e1] b] eqn:S1.
+    destruct (exec st1 r) as [[st2 e2] n2] eqn:S2.
+    inversion E; subst; clear E.
+    eapply IH; [|eassumption]. eapply step_inv; eassumption.
+Qed.
+
+Lemma sumf_zero_idle : forall f scripts,
+  f (Ready MIdle) = 0 -> sumf f (map (fun scr : list op => (Ready MIdle, scr)) scripts) = 0.
+Proof. intros f scripts H. induction scripts as [|a l IH]; simpl; [reflexivity|]. rewrite H, IH. reflexivity. Qed.
+
+Lemma init_inv : forall scripts, Inv (init scripts).
+Proof.
+  intro scripts. unfold init. constructor; cbn [sh ths idle_shared readers writing appending updating readLevel writeLevel];
+    unfold_sums; rewrite ?sumf_zero_idle; try reflexivity; try lia.
+Qed.
+
+Lemma run_rr_inv : forall fuel st st' evs n, Inv st -> run_rr fuel st = Some (st', evs, n) -> Inv st'.
+Proof.
+  induction fuel as [|f IH]; intros st st' evs n HI E; simpl in E.
+  - destruct (all_terminal st); [inversion E; subst; assumption | discriminate].
+  - destruct (all_terminal st); [inversion E; subst; assumption|].
+    destruct (exec st (tids st)) as [[st1 e1] n1] eqn:X.
+    destruct (run_rr f st1) as [[[st2 e2] n2]|] eqn:R; [|discriminate].
+    inversion E; subst; clear E.
+    eapply IH; [|eassumption]. eapply exec_inv; eassumption.
+Qed.
+
+(* every state reachable from the initial one by any schedule *)
+Definition reach (scripts : list (list op)) (sched : list N) : state := fst (fst (exec (init scripts) sched)).
+
+Theorem reach_inv : forall scripts sched, Inv (reach scripts sched).
+Proof.
+  intros. unfold reach. destruct (exec (init scripts) sched) as [[st e] n] eqn:E. simpl.
+  eapply exec_inv; [apply init_inv | eassumption].
+Qed.
+
+Theorem run_case_inv : forall scripts sched st evs n, run_case scripts sched = Some (st, evs, n) -> Inv st.
+Proof.
+  intros scripts sched st evs n E. unfold run_case in E.
+  destruct (exec (init scripts) sched) as [[st1 e1] n1] eqn:X.
+  destruct (run_rr (S (work st1)) st1) as [[[st2 e2] n2]|] eqn:R; [|discriminate].
+  inversion E; subst; clear E.
+  eapply run_rr_inv; [|eassumption]. eapply exec_inv; [apply init_inv | eassumption].
+Qed.
+
+(* ---------- two different members of a list both count in a sum of non-negative weights ---------- *)
+Lemma sumf_nonneg : forall f l, (forall p, 0 <= f p) -> 0 <= sumf f l.
+Proof. intros f l H. induction l as [|[p s] l IH]; simpl; [lia|]. specialize (H p). lia. Qed.
+
+Lemma sumf_member : forall f l i p s, (forall q, 0 <= f q) -> nthN i l = Some (p, s) -> f p <= sumf f l.
+Proof.
+  intros f l i p s H N. destruct (nthN_split _ _ _ _ N) as (l1 & l2 & E & _ & _). subst l.
+  rewrite sumf_app, sumf_cons. pose proof (sumf_nonneg f l1 H). pose proof (sumf_nonneg f l2 H). lia.
+Qed.
+
+Lemma sumf_two_members : forall f l i j p s q r,
+  (forall x, 0 <= f x) -> i <> j -> nthN i l = Some (p, s) -> nthN j l = Some (q, r) -> f p + f q <= sumf f l.
+Proof.
+  intros f l. induction l as [|[a sa] l IH]; intros i j p s q r H D Ni Nj; simpl in Ni, Nj; [discriminate|].
+  rewrite sumf_cons.
+  destruct (N.eqb_spec i 0%N) as [Ei|Ei]; destruct (N.eqb_spec j 0%N) as [Ej|Ej].
+  - subst. contradiction.
+  - inversion Ni; subst. pose proof (sumf_member f l _ _ _ H Nj). lia.
+  - inversion Nj; subst. pose proof (sumf_member f l _ _ _ H Ni). lia.
+  - assert (N.pred i <> N.pred j) by lia.
+    pose proof (IH _ _ _ _ _ _ H H0 Ni Nj). specialize (H a). lia.
+Qed.
+
+Lemma wt_nonneg : forall p,
+  0 <= rl (wt p) /\ 0 <= rd (wt p) /\ 0 <= wl (wt p) /\ 0 <= fw (wt p) /\ 0 <= wr (wt p) /\
+  0 <= ap (wt p) /\ 0 <= up (wt p) /\ 0 <= xc (wt p) /\ 0 <= rc (wt p) /\ 0 <= cr p.
+Proof. intro p. pc_cases p; cbn; lia. Qed.
+
+(* ---------- consequences ---------- *)
+Section Consequences.
+  Variable st : state.
+  Hypothesis HI : Inv st.
+
+  (* what the weights of a holder say *)
+  Lemma holder_weights : forall p m, holds p = Some m -> wt p = wmode m.
+  Proof. intros p m H. destruct p; simpl in H; try discriminate; inversion H; subst; reflexivity. Qed.
+
+  Theorem holders_compatible : forall i j pi si pj sj a b,
+    i <> j -> nthN i (ths st) = Some (pi, si) -> nthN j (ths st) = Some (pj, sj) ->
+    holds pi = Some a -> holds pj = Some b -> compat a b = true.
+  Proof.
+    intros i j pi si pj sj a b D Ni Nj Ha Hb.
+    destruct HI as [_ _ _ _ _ H6 H7 H8 _].
+    pose proof (b2z_range (updating (sh st))) as BU.
+    assert (Tfw := sumf_two_members (fun p => fw (wt p)) _ _ _ _ _ _ _ (fun x => proj1 (proj2 (proj2 (proj2 (wt_nonneg x))))) D Ni Nj).
+    assert (Tup := sumf_two_members (fun p => up (wt p)) _ _ _ _ _ _ _ (fun x => proj1 (proj2 (proj2 (proj2 (proj2 (proj2 (proj2 (wt_nonneg x)))))))) D Ni Nj).
+    assert (Txi := sumf_member (fun p => xc (wt p)) _ _ _ _ (fun x => proj1 (proj2 (proj2 (proj2 (proj2 (proj2 (proj2 (proj2 (wt_nonneg x))))))))) Ni).
+    assert (Txj := sumf_member (fun p => xc (wt p)) _ _ _ _ (fun x => proj1 (proj2 (proj2 (proj2 (proj2 (proj2 (proj2 (proj2 (wt_nonneg x))))))))) Nj).
+    assert (Tri := sumf_member (fun p => rc (wt p)) _ _ _ _ (fun x => proj1 (proj2 (proj2 (proj2 (proj2 (proj2 (proj2 (proj2 (proj2 (wt_nonneg x)))))))))) Ni).
+    assert (Trj := sumf_member (fun p => rc (wt p)) _ _ _ _ (fun x => proj1 (proj2 (proj2 (proj2 (proj2 (proj2 (proj2 (proj2 (proj2 (wt_nonneg x)))))))))) Nj).
+    unfold_sums. cbn beta in *.
+    rewrite (holder_weights _ _ Ha) in *. rewrite (holder_weights _ _ Hb) in *.
+    destruct a, b; cbn [wmode rl rd wl fw wr ap up xc rc compat] in *; try reflexivity; exfalso; lia.
+  Qed.
+
+  Theorem no_crash : forall i p s, nthN i (ths st) = Some (p, s) -> p <> Crashed.
+  Proof.
+    intros i p s Ni E. subst p. destruct HI as [_ _ _ _ _ _ _ _ H9].
+    pose proof (sumf_member cr _ _ _ _ (fun x => proj2 (proj2 (proj2 (proj2 (proj2 (proj2 (proj2 (proj2 (proj2 (wt_nonneg x)))))))))) Ni) as T.
+    unfold Scr in H9. simpl in T. lia.
+  Qed.
+
+  Lemma sumf_all_idle : forall f l,
+    f (Ready MIdle) = 0 -> f (Done MIdle) = 0 ->
+    (forall th, In th l -> holds (fst th) = Some MIdle) -> sumf f l = 0.
+  Proof.
+    intros f l H1 H2. induction l as [|[p s] l IH]; intro A; simpl; [reflexivity|].
+    rewrite IH by (intros; apply A; right; assumption).
+    specialize (A (p, s) (or_introl eq_refl)). simpl in A.
+    destruct p; simpl in A; try discriminate; inversion A; subst; lia.
+  Qed.
+
+  Theorem idle_when_all_released :
+    (forall th, In th (ths st) -> holds (fst th) = Some MIdle) -> sh st = idle_shared.
+  Proof.
+    intro A. destruct HI as [H1 H2 H3 H4 H5 H6 _ _ _]. unfold_sums.
+    rewrite (sumf_all_idle (fun p => rl (wt p)) _ eq_refl eq_refl A) in H1.
+    rewrite (sumf_all_idle (fun p => wl (wt p)) _ eq_refl eq_refl A) in H2.
+    rewrite (sumf_all_idle (fun p => rd (wt p)) _ eq_refl eq_refl A) in H3.
+    rewrite (sumf_all_idle (fun p => wr (wt p)) _ eq_refl eq_refl A) in H4.
+    rewrite (sumf_all_idle (fun p => ap (wt p)) _ eq_refl eq_refl A) in H5.
+    rewrite (sumf_all_idle (fun p => up (wt p)) _ eq_refl eq_refl A) in H6.
+    destruct (sh st) as [R Wr Ap Up RL WL]. cbn [readers writing appending updating readLevel writeLevel] in *.
+    subst. destruct Wr, Ap, Up; simpl in *; try discriminate; reflexivity.
+  Qed.
+End Consequences.
+
+Lemma probe_idle : probe idle_shared = Some [EvRet OpLX true; EvRet OpLS true; EvRet OpLH true].
+Proof. vm_compute. reflexivity. Qed.
+
+(* ---------- the round-robin completion terminates (no lock operation can loop or block) ---------- *)
+Definition wsum (l : list thread) : nat := fold_right (fun th a => twork th + a)%nat O l.
+
+Lemma work_wsum : forall st, work st = wsum (ths st).
+Proof. reflexivity. Qed.
+
+Lemma wsum_app : forall l1 l2, wsum (l1 ++ l2) = (wsum l1 + wsum l2)%nat.
+Proof. induction l1 as [|a l1 IH]; intros; simpl; [reflexivity | rewrite IH; lia]. Qed.
+
+Lemma rank_entry : forall m o, (rank (entry m o) <= 14)%nat.
+Proof. intros m o. destruct m, o; simpl; lia. Qed.
+
+Lemma pstep_work : forall s p scr s' p' scr' evs,
+  terminal p = false -> pstep s p scr = (s', p', scr', evs) -> (twork (p', scr') < twork (p, scr))%nat.
+Proof.
+  intros s p scr s' p' scr' evs T E. unfold twork. cbn [fst snd].
+  destruct p as [m|m| |k|k|k|k|k| |k|k|k| | |k|k|k|k|k|k a|k a|k|k| | |a|a|a| | | | | | | | | ];
+    try discriminate T.
+  1: { cbn [pstep] in E. destruct (fetch m scr) as [[o r]|] eqn:F.
+       - apply fetch_legal in F. destruct F as [_ F]. inversion E; subst; clear E.
+         pose proof (rank_entry m o). cbn [rank]. lia.
+       - inversion E; subst; clear E. simpl. lia. }
+  all: try destruct k; try destruct a; cbn [pstep] in E; split_ifs E; inversion E; subst; clear E; cbn [rank]; lia.
+Qed.
+
+Lemma step_work : forall st t st' evs b,
+  step st t = (st', evs, b) ->
+  if b then (work st' < work st)%nat else st' = st.
+Proof.
+  intros [s l] t st' evs b E. unfold step in E. cbn [sh ths] in E.
+  destruct (nthN t l) as [[p scr]|] eqn:N; [|inversion E; subst; reflexivity].
+  destruct (terminal p) eqn:T; [inversion E; subst; reflexivity|].
+  destruct (pstep s p scr) as [[[s1 p1] scr1] evs1] eqn:P.
+  inversion E; subst; clear E.
+  destruct (nthN_split _ _ _ _ N) as (l1 & l2 & E1 & E2 & _).
+  rewrite !work_wsum. cbn [ths]. rewrite E2. subst l. rewrite !wsum_app. simpl.
+  pose proof (pstep_work _ _ _ _ _ _ _ T P). lia.
+Qed.
+
+Lemma step_flag : forall st t p scr,
+  nthN t (ths st) = Some (p, scr) -> terminal p = false -> snd (step st t) = true.
+Proof.
+  intros st t p scr N T. unfold step. rewrite N, T.
+  destruct (pstep (sh st) p scr) as [[[s1 p1] scr1] evs1]. reflexivity.
+Qed.
+
+Lemma exec_work_le : forall sched st st' evs n, exec st sched = (st', evs, n) -> (work st' <= work st)%nat.
+Proof.
+  induction sched as [|t r IH]; intros st st' evs n E; simpl in E.
+  - inversion E; subst. lia.
+  - destruct (step st t) as [[st1 e1] b] eqn:S1. destruct (exec st1 r) as [[st2 e2] n2] eqn:S2.
+    inversion E; subst; clear E.
+    pose proof (step_work _ _ _ _ _ S1) as W. pose proof (IH _ _ _ _ S2).
+    destruct b; [lia | subst; lia].
+Qed.
+
+Lemma exec_work_lt : forall sched st st' evs n t p scr,
+  In t sched -> nthN t (ths st) = Some (p, scr) -> terminal p = false ->
+  exec st sched = (st', evs, n) -> (work st' < work st)%nat.
+Proof.
+  induction sched as [|t0 r IH]; intros st st' evs n t p scr I N T E; [contradiction|].
+  simpl in E. destruct (step st t0) as [[st1 e1] b] eqn:S1. destruct (exec st1 r) as [[st2 e2] n2] eqn:S2.
+  inversion E; subst; clear E.
+  pose proof (step_work _ _ _ _ _ S1) as W. pose proof (exec_work_le _ _ _ _ _ S2) as L.
+  destruct b; [lia|]. subst st1.
+  destruct I as [I|I].
+  - subst t0. pose proof (step_flag _ _ _ _ N T) as Fl. rewrite S1 in Fl. discriminate Fl.
+  - eapply IH; eassumption.
+Qed.
+
+Lemma not_all_terminal_witness : forall l k,
+  forallb (fun th : thread => terminal (fst th)) l = false ->
+  exists t p scr, nthN t l = Some (p, scr) /\ terminal p = false /\ In (k + t)%N (tids_from k l).
+Proof.
+  induction l as [|[p scr] l IH]; intros k H; simpl in H; [discriminate|].
+  destruct (terminal p) eqn:T; simpl in H.
+  - destruct (IH (N.succ k) H) as (t & q & s & N & Tq & I).
+    exists (N.succ t), q, s. split; [|split; [assumption|]].
+    + simpl. destruct (N.eqb_spec (N.succ t) 0%N); [lia|]. rewrite N.pred_succ. assumption.
+    + simpl. right. replace (k + N.succ t)%N with (N.succ k + t)%N by lia. assumption.
+  - exists 0%N, p, scr. split; [reflexivity|]. split; [assumption|]. simpl. left. lia.
+Qed.
+
+Lemma run_rr_completes : forall fuel st, (work st < fuel)%nat -> exists r, run_rr fuel st = Some r.
+Proof.
+  induction fuel as [|f IH]; intros st W; [lia|].
+  simpl. destruct (all_terminal st) eqn:A; [eexists; reflexivity|].
+  destruct (exec st (tids st)) as [[st1 e1] n1] eqn:X.
+  destruct (not_all_terminal_witness _ 0%N A) as (t & p & scr & N & T & I).
+  rewrite N.add_0_l in I.
+  pose proof (exec_work_lt _ _ _ _ _ _ _ _ I N T X) as L.
+  destruct (IH st1) as [[[st2 e2] n2] R]; [lia|]. rewrite R. eexists; reflexivity.
+Qed.
+
+Lemma run_rr_all_terminal : forall fuel st st' evs n, run_rr fuel st = Some (st', evs, n) -> all_terminal st' = true.
+Proof.
+  induction fuel as [|f IH]; intros st st' evs n E; simpl in E.
+  - destruct (all_terminal st) eqn:A; [inversion E; subst; assumption | discriminate].
+  - destruct (all_terminal st) eqn:A; [inversion E; subst; assumption|].
+    destruct (exec st (tids st)) as [[st1 e1] n1]. destruct (run_rr f st1) as [[[st2 e2] n2]|] eqn:R; [|discriminate].
+    inversion E; subst. eapply IH; eassumption.
+Qed.
+
+Theorem run_case_completes : forall scripts sched,
+  exists st evs n, run_case scripts sched = Some (st, evs, n) /\ all_terminal st = true.
+Proof.
+  intros scripts sched. unfold run_case.
+  destruct (exec (init scripts) sched) as [[st1 e1] n1].
+  destruct (run_rr_completes (S (work st1)) st1) as [[[st2 e2] n2] R]; [lia|].
+  rewrite R. do 3 eexists. split; [reflexivity|]. eapply run_rr_all_terminal; eassumption.
+Qed.
+
+(* ---------- statements in the form used by Properties_C54.v ---------- *)
+Theorem reach_holders_compatible : forall scripts sched i j pi si pj sj a b,
+  i <> j ->
+  nthN i (ths (reach scripts sched)) = Some (pi, si) ->
+  nthN j (ths (reach scripts sched)) = Some (pj, sj) ->
+  holds pi = Some a -> holds pj = Some b -> compat a b = true.
+Proof. intros scripts sched. apply holders_compatible. apply reach_inv. Qed.
+
+Theorem reach_exclusive_alone : forall scripts sched i j pi si pj sj b,
+  i <> j ->
+  nthN i (ths (reach scripts sched)) = Some (pi, si) ->
+  nthN j (ths (reach scripts sched)) = Some (pj, sj) ->
+  holds pi = Some MExcl -> holds pj = Some b -> b = MIdle.
+Proof.
+  intros scripts sched i j pi si pj sj b D Ni Nj Ha Hb.
+  pose proof (reach_holders_compatible _ _ _ _ _ _ _ _ _ _ D Ni Nj Ha Hb) as C.
+  destruct b; simpl in C; try discriminate; reflexivity.
+Qed.
+
+Theorem reach_one_writer : forall scripts sched i j pi si pj sj a b,
+  i <> j ->
+  nthN i (ths (reach scripts sched)) = Some (pi, si) ->
+  nthN j (ths (reach scripts sched)) = Some (pj, sj) ->
+  holds pi = Some a -> holds pj = Some b -> is_writer a = true -> is_writer b = true -> False.
+Proof.
+  intros scripts sched i j pi si pj sj a b D Ni Nj Ha Hb Wa Wb.
+  pose proof (reach_holders_compatible _ _ _ _ _ _ _ _ _ _ D Ni Nj Ha Hb) as C.
+  destruct a, b; simpl in *; discriminate.
+Qed.
+
+Theorem reach_sharer_writer_append : forall scripts sched i j pi si pj sj a b,
+  i <> j ->
+  nthN i (ths (reach scripts sched)) = Some (pi, si) ->
+  nthN j (ths (reach scripts sched)) = Some (pj, sj) ->
+  holds pi = Some a -> holds pj = Some b -> is_sharer a = true -> is_writer b = true ->
+  b = MAppend \/ b = MBusy.
+Proof.
+  intros scripts sched i j pi si pj sj a b D Ni Nj Ha Hb Sa Wb.
+  pose proof (reach_holders_compatible _ _ _ _ _ _ _ _ _ _ D Ni Nj Ha Hb) as C.
+  destruct a, b; simpl in *; try discriminate; auto.
+Qed.
+
+Theorem reach_one_header_updater : forall scripts sched i j pi si pj sj,
+  i <> j ->
+  nthN i (ths (reach scripts sched)) = Some (pi, si) ->
+  nthN j (ths (reach scripts sched)) = Some (pj, sj) ->
+  holds pi = Some MHeaders -> holds pj = Some MHeaders -> False.
+Proof.
+  intros scripts sched i j pi si pj sj D Ni Nj Ha Hb.
+  pose proof (reach_holders_compatible _ _ _ _ _ _ _ _ _ _ D Ni Nj Ha Hb) as C. discriminate C.
+Qed.
+
+Theorem reach_no_crash : forall scripts sched i p s,
+  nthN i (ths (reach scripts sched)) = Some (p, s) -> p <> Crashed.
+Proof. intros scripts sched. apply no_crash. apply reach_inv. Qed.
+
+Theorem reach_idle_when_all_released : forall scripts sched,
+  (forall th, In th (ths (reach scripts sched)) -> holds (fst th) = Some MIdle) ->
+  sh (reach scripts sched) = idle_shared.
+Proof. intros scripts sched. apply idle_when_all_released. apply reach_inv. Qed.
+
+Theorem reach_obtainable_when_all_released : forall scripts sched,
+  (forall th, In th (ths (reach scripts sched)) -> holds (fst th) = Some MIdle) ->
+  probe (sh (reach scripts sched)) = Some [EvRet OpLX true; EvRet OpLS true; EvRet OpLH true].
+Proof. intros scripts sched A. rewrite (reach_idle_when_all_released _ _ A). apply probe_idle. Qed.
+
+(* at a quiescent point (every process is between two calls) the six fields say exactly who holds what *)
+Definition is_headers (m : mode) : bool := match m with MHeaders => true | _ => false end.
+Definition holders (f : mode -> bool) (l : list thread) : Z :=
+  sumf (fun p => match holds p with Some m => b2z (f m) | None => 0 end) l.
+
+Lemma sums_of_holders : forall l,
+  (forall th, In th l -> holds (fst th) <> None) ->
+  Srl l = holders is_sharer l /\ Srd l = holders is_sharer l /\ Swl l = holders is_writer l /\
+  Swr l = holders is_writer l /\ Sap l = holders is_append l /\ Sup l = holders is_headers l.
+Proof.
+  unfold holders. unfold_sums.
+  induction l as [|[p s] l IH]; intro A; [simpl; repeat split; reflexivity|].
+  rewrite !sumf_cons.
+  destruct IH as (I1 & I2 & I3 & I4 & I5 & I6); [intros; apply A; right; assumption|].
+  specialize (A (p, s) (or_introl eq_refl)). cbn [fst] in A.
+  rewrite I1, I2, I3, I4, I5, I6.
+  destruct p; try (exfalso; apply A; reflexivity); destruct m; cbn; repeat split; reflexivity.
+Qed.
+
+Theorem reach_quiescent_fields : forall scripts sched,
+  let st := reach scripts sched in
+  (forall th, In th (ths st) -> holds (fst th) <> None) ->
+  readers (sh st) = holders is_sharer (ths st) /\
+  readLevel (sh st) = holders is_sharer (ths st) /\
+  writeLevel (sh st) = holders is_writer (ths st) /\
+  b2z (writing (sh st)) = holders is_writer (ths st) /\
+  b2z (appending (sh st)) = holders is_append (ths st) /\
+  b2z (updating (sh st)) = holders is_headers (ths st).
+Proof.
+  intros scripts sched st A. destruct (reach_inv scripts sched) as [H1 H2 H3 H4 H5 H6 _ _ _].
+  fold st in H1, H2, H3, H4, H5, H6.
+  destruct (sums_of_holders _ A) as (I1 & I2 & I3 & I4 & I5 & I6).
+  rewrite H1, H2, H3, H4, H5, H6. repeat split; assumption.
 Qed.
